@@ -74,7 +74,8 @@ def rule_vocabulary():
         # a function is "named by a rule" when its name is used in path form (`Type::name`, `module::name`) or as the
         # name= / path= argument of an anchor lookup - not when the same English word merely occurs in a description
         body = "\n".join(txt)
-        _VOCAB = set(re.findall(r"::([A-Za-z_][A-Za-z0-9_]*)", body)) | set(re.findall(r"name=\"([A-Za-z_][A-Za-z0-9_]*)\"", body)) | \
+        # (only the LAST segment of a path names a function; `metric::win_rate::WinRate` does not name a function `win_rate`)
+        _VOCAB = set(re.findall(r"::([A-Za-z_][A-Za-z0-9_]*)(?![A-Za-z0-9_]|::)", body)) | set(re.findall(r"name=\"([A-Za-z_][A-Za-z0-9_]*)\"", body)) | \
             set(re.findall(r"[\"'(]([a-z_][a-z0-9_]*)\(", body))
     return _VOCAB
 
